@@ -23,6 +23,19 @@ Oracle of a QR step: the Frobenius norm of the R factor LAPACK returned, compute
 derives from R to take its zero decision.  A zero result that no recorded factor (|R|_F, sigma_0, last-tensor norm)
 backs is reported as a non-zero state mapped to zero.
 
+RETURN TYPE / ARITY (`result_problem`, key result-type): every call that returns is first checked for the documented
+type — a list of len(mps) of None / 4-index arrays, or (normalise=True / truncate) a 2-tuple (such a list, number) —
+before anything is unpacked; in particular the zero-state exits with qr=True and normalise=False.
+SYSTEMATIC classes (`special_specs`, str seeds 'S{json}', rebuilt by `build_special`), next to the random cases:
+'zero' = zero states (all tensors zero / one zero tensor at the first, a middle, the last position; 6 chains incl. MPO, a
+single site and open boundary dims; with / without None padding) x every op x qr x normalise x 8 mask kinds (None,
+all-false, all-true, last / first tensor off, alternating, only first / last on; truncate: chi x tol incl. 1.0);
+'tolge1' = non-zero states x tol in {1.0, 1.5, 1e3} x every op x normalise x chi x the mask kinds: since repo fix bea8d12
+a tol that no normalised singular value exceeds is a ZERO EXIT (zeros_like, norm 0; truncate returns the norm of its
+first sweep with the zero tensors) — modelled as a zero-flag step in Model/MpsShape.lean (`stepDecide`; theorems
+`tol_discards_all_is_zero_exit`, `tol_discards_all_gives_zeros`, `kept_rank_pos` in Props/C12.lean); monitors: no
+exception, result zeros_like, norm 0 / |in| as the code has it (tol_discards_all, tol_exit_truncate_norm).
+
 All numeric monitors are SCALE-FREE: every tensor is divided by its Frobenius norm, the product of these norms and
 the returned norm are carried as mpmath mpf (120 bits), and only O(1) quantities are compared.  Chains too long for a
 dense contraction (40..100 sites) are compared through transfer-matrix overlaps <in|in>, <in|out>, <out|out>
@@ -56,13 +69,21 @@ RULE = ('random MPS (bra/ket) and MPO: 1..7 tensors, physical dims 1..3, bonds 1
         'float range) / LONG (40..100 sites, bonds 1..2, physical dims 1..2, every tensor times 1e-9..1e9, optional '
         'structured site); malformed stream: internal None '
         'gap, all-None and empty lists, bond mismatch, wrong mask length, chi or tol with qr; ops '
-        'left_canonical_form / right_canonical_form (qr and svd, chi in None,0,1..7, tol in None,0,1e-12,1e-3,0.5, '
-        'normalise both, masks None/random/all-false/all-true) and truncate; helper ops _mps_start_stop_indices, '
+        'left_canonical_form / right_canonical_form (qr and svd, chi in None,0,1..7, tol in None,0,1e-12,1e-3,0.5 and '
+        'tol >= 1: 1.0,1.5,1e3 (nothing kept: zero exit), normalise both, masks None/random/all-false/all-true) and '
+        'truncate; SYSTEMATIC classes: zero states (all tensors zero / one zero tensor first, middle, last; 6 chains '
+        'incl. MPO and open boundary; with / without None padding) x every op x qr x normalise x 8 mask kinds, and '
+        'non-zero states x tol >= 1 x every op x normalise x chi x 8 mask kinds; return type / arity of every call '
+        'checked; helper ops _mps_start_stop_indices, '
         'zeros_like, reverse, bond_dimension on random None patterns. Exact comparison of shapes, step kinds, kept '
         'ranks, zero flags and error kinds with the Lean model; numeric contracts as monitors. non-trivial = at least '
         'one decomposition was performed')
 
 TOLS = [None, 0.0, 1e-12, 1e-3, 0.5]
+# tol >= 1: no normalised singular value (sigma/sigma_0 <= 1) exceeds it, `s = s[s > tol]` keeps NOTHING.  Since repo fix
+# bea8d12 the sweep takes the zero exit there (zeros_like, norm 0 — `truncate` keeps the norm of its first sweep) instead
+# of raising IndexError; modelled as a zero-flag step ('Z') in Model/MpsShape.lean.
+TOL_GE1 = [1.0, 1.5, 1e3]
 ISO_TOL = 1e-10
 DENSE_CAP = 60000
 
@@ -181,7 +202,10 @@ def gen_long(rng):
 
 
 def build_case(seed):
-    """deterministic construction of one case from an integer seed (drawn from ctx.rng by run())"""
+    """deterministic construction of one case from an integer seed (drawn from ctx.rng by run()); a str seed is a case
+    of a SYSTEMATIC class ('S' + JSON spec, see special_specs / build_special)"""
+    if isinstance(seed, str):
+        return build_special(seed)
     rng = random.Random(seed)
     nrng = np.random.default_rng(seed)
     cls = rng.random()
@@ -251,6 +275,8 @@ def build_case(seed):
     op = rng.choice(['lcf', 'rcf', 'trunc', 'trunc'])
     chi = rng.choice([None, None, 0, 1, 1, 2, 2, 3, 4, 5, 7])
     tol = rng.choice(TOLS + [None, None])
+    if rng.random() < 0.06:
+        tol = rng.choice(TOL_GE1)
     qr = op != 'trunc' and rng.random() < 0.4
     if qr and rng.random() < 0.9:
         chi, tol = rng.choice([None, 0]), rng.choice([None, 0.0])
@@ -270,6 +296,95 @@ def build_case(seed):
             malformed = malformed or 'mask-length'
     return {'seed': seed, 'kind': kind, 'style': style, 'mps': mps, 'op': op, 'chi': chi, 'tol': tol, 'qr': qr,
             'normalise': normalise, 'mask': mask, 'malformed': malformed, 'zero_exact': zero_exact}
+
+
+# ------------------------------------------------------------------------------------------ systematic classes
+
+SPECIAL_CHAINS = {
+    'ket4': [(1, 2, 3, 1), (3, 2, 3, 1), (3, 2, 3, 1), (3, 2, 1, 1)],
+    'ket2': [(1, 2, 2, 1), (2, 2, 1, 1)],
+    'bra3': [(1, 1, 2, 3), (2, 1, 4, 2), (4, 1, 1, 2)],
+    'one': [(1, 3, 1, 1)],
+    'mpo3': [(1, 2, 2, 2), (2, 2, 3, 2), (3, 2, 1, 2)],
+    'open3': [(2, 2, 3, 1), (3, 2, 2, 1), (2, 2, 2, 1)],
+}
+MASK_KINDS = ['none', 'all-false', 'all-true', 'last-false', 'first-false', 'alternating', 'only-first', 'only-last']
+
+
+def special_mask(kind, mps):
+    idx = [i for i, t in enumerate(mps) if t is not None]
+    n = len(mps)
+    if kind == 'none':
+        return None
+    if kind == 'all-false':
+        return [False] * n
+    if kind == 'all-true':
+        return [True] * n
+    if kind == 'alternating':
+        return [i % 2 == 0 for i in range(n)]
+    m = [kind in ('last-false', 'first-false')] * n
+    if idx:
+        m[idx[-1] if kind in ('last-false', 'only-last') else idx[0]] = kind in ('only-first', 'only-last')
+    return m
+
+
+def special_specs():
+    """the two systematic classes, as JSON-able specs:
+    'zero'   — ZERO STATES: all tensors zero / one zero tensor at the first, a middle, the last position (the other
+               tensors generic), with and without None padding x every op x qr in {True, False} x normalise in {True,
+               False} x 8 mask kinds (truncate: chi in {1, 2} x tol in {None, 1e-3, 1.0}): the result must have the
+               documented TYPE (list, or 2-tuple (list, norm) — normalise=False with QR included), be zeros_like, and
+               the norm 0;
+    'tolge1' — NON-ZERO states x tol in {1.0, 1.5, 1e3} x every op (SVD) x normalise x masks x chi: no exception, the
+               result is the zero state (zeros_like), norm 0 for a normalising canonical form, the norm of the first
+               sweep for truncate (the code's semantics)."""
+    out = []
+    for chain, shapes in sorted(SPECIAL_CHAINS.items()):
+        L = len(shapes)
+        for pad in ([0, 0], [1, 2]):
+            poss = ['all'] + sorted({0, L // 2, L - 1})
+            for pos in poss:
+                base = {'cls': 'zero', 'chain': chain, 'pad': pad, 'pos': pos}
+                for mk in MASK_KINDS:
+                    for op in ('lcf', 'rcf'):
+                        for qr in (True, False):
+                            for nm in (True, False):
+                                out.append(dict(base, op=op, qr=qr, normalise=nm, mask=mk, chi=None, tol=None))
+                    for chi in (1, 2):
+                        for tol in (None, 1e-3, 1.0):
+                            out.append(dict(base, op='trunc', qr=False, normalise=False, mask=mk, chi=chi, tol=tol))
+            if L < 2:
+                continue
+            base = {'cls': 'tolge1', 'chain': chain, 'pad': pad, 'pos': None}
+            for mk in MASK_KINDS:
+                for tol in TOL_GE1:
+                    for chi in (None, 1, 2):
+                        for op in ('lcf', 'rcf'):
+                            for nm in (True, False):
+                                out.append(dict(base, op=op, qr=False, normalise=nm, mask=mk, chi=chi, tol=tol))
+                        out.append(dict(base, op='trunc', qr=False, normalise=False, mask=mk, chi=chi, tol=tol))
+    return out
+
+
+def special_seed(spec, k):
+    return 'S' + json.dumps(dict(spec, rs=k), sort_keys=True)
+
+
+def build_special(seed):
+    spec = json.loads(seed[1:])
+    shapes = SPECIAL_CHAINS[spec['chain']]
+    nrng = np.random.default_rng(spec['rs'])
+    ints = spec['rs'] % 2 == 0
+    tensors = [nrng.integers(1, 4, size=s).astype(float) * nrng.choice([-1.0, 1.0], size=s) if ints
+               else nrng.standard_normal(s) for s in shapes]
+    if spec['cls'] == 'zero':
+        for i in (range(len(shapes)) if spec['pos'] == 'all' else [spec['pos']]):
+            tensors[i] = np.zeros(shapes[i])
+    mps = [None] * spec['pad'][0] + tensors + [None] * spec['pad'][1]
+    kind = 'mpo' if spec['chain'].startswith('mpo') else 'bra' if spec['chain'].startswith('bra') else 'ket'
+    return {'seed': seed, 'kind': kind, 'style': 'class:' + spec['cls'], 'mps': mps, 'op': spec['op'], 'chi': spec['chi'],
+            'tol': spec['tol'], 'qr': spec['qr'], 'normalise': spec['normalise'], 'mask': special_mask(spec['mask'], mps),
+            'malformed': None, 'zero_exact': spec['cls'] == 'zero', 'mask_kind': spec['mask']}
 
 
 # ------------------------------------------------------------------------------------------ recording the real code
@@ -348,7 +463,10 @@ class Recorder:
             rec.segs.append(seg)
             res = rec._lcf(mps, *a, **kw)
             out = res[0] if isinstance(res, tuple) else res
-            seg['out'] = [None if t is None else t.shape for t in out]
+            try:
+                seg['out'] = [None if t is None else t.shape for t in out]
+            except (TypeError, AttributeError):   # not an MPS: judged by result_problem
+                seg['out'] = None
             return res
         M.left_canonical_form = lcf
         M.sp_linalg = _LinalgProxy(self._la, self)
@@ -384,6 +502,10 @@ def seg_trace(seg, reverse_len=None):
     for j, c in enumerate(mcalls):
         row = start + j
         zero = (c['val'] == 0.0) if c['k'] == 'Q' else (len(c['s']) > 0 and c['s'][0] == 0.0)
+        s_tol = seg['kw'].get('tol', (list(seg['kw'].get('_args', ())) + [None, None])[1])   # lcf(mps, chi, tol, …)
+        if not zero and c['k'] == 'S' and s_tol and len(c['s']) and not np.any(c['s'] / c['s'][0] > s_tol):
+            # tol discards every normalised singular value: the zero exit of fix bea8d12 (nothing is kept)
+            zero = c['tolzero'] = True
         if zero:
             kept = 'Z'
         else:
@@ -569,11 +691,15 @@ def range_limited(case, info):
     """normalise=False sweep where float64 tensors cannot carry the norm (see RANGE_KEY): the scale accumulated by the
     sweep meets the code's own 'out-of-range' condition, or the norm of the state is below 1e-280, or prod |A_i|_F (an
     upper bound of the norm and of everything the sweep computes) is above 1e280.  Returns that quantity, else None"""
-    if case['op'] == 'trunc' or case['normalise'] or not well_formed(case) or not run_of(case['mps']):
+    # a bond mismatch that numpy's einsum broadcasts (one side 1) is swept like a well-formed chain: same attribution
+    swept_like_wf = well_formed(case) or (case['malformed'] == 'bond' and not (case['qr'] and (case['chi'] or case['tol'])))
+    if case['op'] == 'trunc' or case['normalise'] or not swept_like_wf or not run_of(case['mps']):
         return None
     acc = info.get('acc')
     if acc is not None and (acc > sys.float_info.max or acc < sys.float_info.min):
         return acc
+    if not well_formed(case):
+        return None
     with mp.workprec(120), np.errstate(all='ignore'):
         # prod |A_i|_F bounds every quantity of the sweep, and rounding noise is ~1e-16 of it even when the state
         # itself cancels to (nearly) zero
@@ -701,7 +827,14 @@ def _evaluate(case, st):
                 and not (qr and (chi or tol)) and not (mask is not None and len(mask) != len(mps)):
             fail('non-contiguous MPS did not raise the documented ValueError but ' + name, 'gap-not-raised')
         return line, name, fails, info
-    # ---- success path: unpack
+    # ---- success path: the documented return type / arity, then unpack
+    bump('result_type')
+    rp = result_problem(op, normalise, res, mps)
+    if rp:
+        fail('{}(qr={}, normalise={}, chi={}, tol={}, mask={}) {}'.format(
+            {'lcf': 'left_canonical_form', 'rcf': 'right_canonical_form', 'trunc': 'truncate'}[op], qr, normalise, chi,
+            tol, mask, rp), 'result-type')
+        return line, 'bad-result-type', fails, info
     if op == 'trunc':
         out, norm = res
         same = out is mps
@@ -760,6 +893,7 @@ def _evaluate(case, st):
         fail('output tensors do not fit together', 'shapes-inconsistent')
         fits = False
     zero_any = any(zero_rec)
+    tol_exit = any(c.get('tolzero') for s_ in segs for c in s_['calls'])
     # (2a) a zero verdict must be backed by a factor that is zero: |R|_F (taken by the harness from the R that LAPACK
     # returned), sigma_0 or the norm of the last tensor
     unbacked_zero = nrm is not None and nrm == 0 and not zero_any and not same
@@ -805,6 +939,12 @@ def _evaluate(case, st):
     if op != 'trunc' and zero_rec and zero_rec[0]:
         if not all_zero(out) or out_shapes != shapes_of(M.zeros_like(mps)) or (normalise and norm != 0):
             fail('zero detected but result is not zeros_like with norm 0', 'zero-handling')
+    if op == 'trunc' and any(zero_rec):
+        # either sweep of truncate took a zero exit (zero state met by the QR sweep; tol keeping nothing in the SVD sweep)
+        if not all_zero(out) or out_shapes != shapes_of(M.zeros_like(mps)):
+            fail('truncate: a sweep took its zero exit but the result is not zeros_like', 'zero-handling')
+    if tol_exit:
+        bump('tol_discards_all')
     if case['zero_exact']:
         if op == 'trunc':
             if py_guard(case) and (norm != 0 or not all_zero(out)):
@@ -915,7 +1055,16 @@ def _evaluate(case, st):
         if zero_out:
             # a zero result must come from a zero state (a truncating canonical form outside `truncate` may
             # legitimately project a non-zero state to zero: no claim there)
-            if not truncating or op == 'trunc':
+            if tol_exit:
+                # tol >= 1 projects a non-zero state to zero by design.  Norm semantics as the code has them: a
+                # normalising canonical form returns 0 (checked in (3)); truncate returns the norm of its first,
+                # normalising QR sweep, i.e. |in|
+                if op == 'trunc' and use_dense and nrm is not None and n_in != 0:
+                    bump('tol_exit_truncate_norm')
+                    if not abs(float(nrm / a_in - n_in)) <= 1e-10:
+                        fail('truncate with tol {} (nothing kept): returned norm {} but |in| = {}'.format(
+                            tol, mp.nstr(nrm, 15), mp.nstr(a_in * n_in, 15)), 'norm-value')
+            elif not truncating or op == 'trunc':
                 bump('zero_preserved')
                 # dense: |in| tiny against prod |A_i|_F; long chains (where that product says nothing): the verdict
                 # must be backed by an exactly zero factor, checked in (2a)
@@ -980,6 +1129,32 @@ def _evaluate(case, st):
     return line, impl, fails, info
 
 
+def result_problem(op, normalise, res, mps):
+    """the documented RETURN TYPE of the call: a list of len(mps) whose entries are None / 4-index arrays, or (normalise /
+    truncate) a 2-tuple of such a list and a real number.  Returns a description of the deviation, else None."""
+    if op == 'trunc' or normalise:
+        if not isinstance(res, tuple) or len(res) != 2:
+            return 'returned {} instead of the documented 2-tuple (MPS, norm)'.format(
+                'a {}-tuple'.format(len(res)) if isinstance(res, tuple) else 'a ' + type(res).__name__)
+        out, norm = res
+        if isinstance(norm, (list, tuple, np.ndarray, str, bool)) or norm is None:
+            return 'norm part of the result is a {}'.format(type(norm).__name__)
+    else:
+        out = res
+        if isinstance(out, tuple):
+            return ('returned a {}-tuple ({}) although normalise=False: the documented result is the MPS (a list) '
+                    'alone'.format(len(out), ', '.join(type(x).__name__ for x in out)))
+    if not isinstance(out, list):
+        return 'MPS part of the result is a {} not a list'.format(type(out).__name__)
+    if len(out) != len(mps):
+        return 'result has {} sites, the input {}'.format(len(out), len(mps))
+    for i, t in enumerate(out):
+        if t is not None and not (isinstance(t, np.ndarray) and t.ndim == 4):
+            return 'site {} of the result is {} not a 4-index array'.format(
+                i, 'a {}-index array'.format(t.ndim) if isinstance(t, np.ndarray) else 'a ' + type(t).__name__)
+    return None
+
+
 def case_desc(case):
     return {'seed': case['seed'], 'op': case['op'], 'chi': case['chi'], 'tol': case['tol'], 'qr': case['qr'],
             'normalise': case['normalise'], 'mask': case['mask'], 'style': case['style'],
@@ -1035,8 +1210,19 @@ def run(ctx):
     helper_cases(ctx, ctx.scale(500, 5000))
     n = ctx.scale(10000, 120000)
     skipped = 0
-    for _ in range(n):
-        seed = ctx.rng.getrandbits(48)
+    specials = special_specs()
+    by_cls = {}
+    for sp in specials:
+        by_cls.setdefault(sp['cls'], []).append(sp)
+    special_seeds = []
+    for cls in sorted(by_cls):
+        pool = by_cls[cls]
+        ctx.rng.shuffle(pool)
+        pool = pool[:ctx.scale(700, len(pool))]
+        special_seeds += [special_seed(sp, ctx.rng.randrange(1000)) for sp in pool]
+    ctx.extra['systematic_classes'] = {c: len(v) for c, v in by_cls.items()}
+    seeds = [ctx.rng.getrandbits(48) for _ in range(n)] + special_seeds
+    for seed in seeds:
         case = build_case(seed)
         line, impl, fails, info = evaluate(case, stats)
         ctx.count('op', case['op']); ctx.count('kind', case['kind']); ctx.count('style', case['style'])
@@ -1044,6 +1230,11 @@ def run(ctx):
         ctx.count('qr', case['qr']); ctx.count('malformed', case['malformed'])
         ctx.count('mask', 'None' if case['mask'] is None else 'all-false' if not any(case['mask']) else
                   'all-true' if all(case['mask']) else 'mixed')
+        if case['zero_exact'] and case['malformed'] is None:
+            ctx.count('zero_state.op/qr/normalise', '{}/qr={}/normalise={}'.format(case['op'], int(case['qr']),
+                                                                                   int(case['normalise'])))
+        if isinstance(seed, str):
+            ctx.count('systematic.' + case['style'], '{}/mask={}'.format(case['op'], case['mask_kind']))
         ctx.count('outcome', impl.split()[0]); ctx.count('decompositions', info['decomps'])
         if impl.startswith('ok'):
             ctx.count('zero_flag', ' z=1 ' in impl)
@@ -1091,6 +1282,12 @@ def run(ctx):
                                       'reported',
         'range_cast_warned': 'normalise=False, accumulated scale outside [float min, float max]: the code logged '
                              '"Casting out-of-range norm" and raised nothing',
+        'result_type': 'every call that returns: the result has the documented type and arity — a list of len(mps) of None / '
+                       '4-index arrays, or (normalise=True, truncate) a 2-tuple of such a list and a number',
+        'tol_discards_all': 'tol >= every normalised singular value of a step (tol >= 1): no exception, zero exit — '
+                            'zeros_like result, norm 0 from a normalising canonical form',
+        'tol_exit_truncate_norm': 'truncate whose SVD sweep kept nothing: |norm / prod|A_i|_F - |dense(unit tensors)|| '
+                                  '<= 1e-10 (the norm of the first sweep, as the code has it)',
         'norm_type_probe': 'norm not an mpf: same call re-run on a copy rescaled so that |state| leaves the float range',
     }
     ctx.explored = {k: {'evaluations': v, 'rule': rules.get(k, k), 'exhaustive': False} for k, v in sorted(stats.items())}
@@ -1154,7 +1351,7 @@ def search(m):
             v = extreme_copy(case, rng.choice([-1, 1]))
         v['op'] = rng.choice(['lcf', 'rcf', 'trunc'])
         v['chi'] = rng.choice(VARIANT_CHI)
-        v['tol'] = rng.choice(TOLS)
+        v['tol'] = rng.choice(TOLS + TOL_GE1[:1])
         v['qr'] = v['op'] != 'trunc' and not v['chi'] and not v['tol'] and rng.random() < 0.5
         v['normalise'] = rng.random() < 0.5
         v['mask'] = rng.choice([None, [rng.random() < 0.5 for _ in case['mps']]])
